@@ -282,6 +282,99 @@ def okScanWin (directional : Bool) (n w step sp : Int) : Out Nat → Bool
   | .ok k => validScan directional n w step sp && decide (1 ≤ k) &&
       decide (sp + ((k : Int) - 1) * step + w ≤ n) && decide (n < sp + (k : Int) * step + w)
 
+/-! ### VariantInterval(start, end, sequence) -/
+
+def validVar (alph : List Char) (s e : Int) (alt : List Char) : Bool :=
+  decide (0 ≤ s) && decide (s < e) && alt.all (fun c => alph.contains (upperAscii c))
+
+def okMkVar (alph : List Char) (s e : Int) (alt : List Char) : Out (Int × Int) → Bool
+  | .internal => false
+  | .refused => !validVar alph s e alt
+  | .ok (s', e') => validVar alph s e alt && s' == s && e' == e
+
+/-! ### FeatureInterval(interval_starts, interval_ends, strand, qualifiers) -/
+
+/-- qualifiers argument: None / something that is not a dict (truthy or not) / a dict (per value: is it a list?) -/
+inductive QS where
+  | none
+  | notDict (truthy : Bool)
+  | dict (valuesAreLists : List Bool)
+
+/-- the documented shape is `Dict[Hashable, List]`; an EMPTY value of another type is tolerated (it carries nothing) -/
+def validQual : QS → Bool
+  | .none => true
+  | .notDict t => !t
+  | .dict vals => vals.all id
+
+def okMkFeature (starts ends : List Int) (q : QS) : Out (Int × Int) → Bool
+  | .internal => false
+  | .refused => !(validBlocks starts ends && validQual q && ascending (starts.zip ends))
+  | .ok (s, e) => validBlocks starts ends && validQual q && s == minStartI (starts.zip ends) && e == maxEndI (starts.zip ends)
+
+/-! ### GeneInterval(transcripts, qualifiers) / FeatureIntervalCollection(feature_intervals, qualifiers) -/
+
+/-- child as read by the collection: (start, end, guid, primary flag) -/
+abbrev ChildS := Int × Int × Nat × Bool
+
+def distinctNat : List Nat → Bool
+  | [] => true
+  | g :: rest => !rest.contains g && distinctNat rest
+
+def validColl (cs : List ChildS) (q : QS) : Bool :=
+  !cs.isEmpty && validQual q && cs.all (fun c => decide (0 ≤ c.1) && decide (c.1 ≤ c.2.1)) &&
+  distinctNat (cs.map (·.2.2.1)) && decide ((cs.filter (·.2.2.2)).length ≤ 1)
+
+def okMkColl (cs : List ChildS) (q : QS) : Out (Int × Int) → Bool
+  | .internal => false
+  | .refused => !validColl cs q
+  | .ok (s, e) => validColl cs q && s == minStartI (cs.map fun c => (c.1, c.2.1)) && e == maxEndI (cs.map fun c => (c.1, c.2.1))
+
+/-! ### AnnotationCollection(children, start, end) -/
+
+def validAnnot (start endp : Option Int) (kids : List ChildS) : Bool :=
+  (start.isSome == endp.isSome) &&
+  (match start, endp with
+   | some s, some e => decide (0 ≤ s) && decide (s ≤ e)
+   | _, _ => true) &&
+  kids.all (fun c => decide (0 ≤ c.1) && decide (c.1 ≤ c.2.1)) && distinctNat (kids.map (·.2.2.1))
+
+/-- `none` = an empty collection without bounds -/
+def okMkAnnot (start endp : Option Int) (kids : List ChildS) : Out (Option (Int × Int)) → Bool
+  | .internal => false
+  | .refused => !validAnnot start endp kids
+  | .ok none => validAnnot start endp kids && start.isNone && kids.isEmpty
+  | .ok (some (s, e)) =>
+      validAnnot start endp kids &&
+      (match start, endp with
+       | some a, some b => s == a && e == b
+       | _, _ => !kids.isEmpty && s == minStartI (kids.map fun c => (c.1, c.2.1)) && e == maxEndI (kids.map fun c => (c.1, c.2.1)))
+
+/-! ### Codon(str) -/
+
+def validCodon (alph : List Char) (s : List Char) : Bool :=
+  s.length == 3 && s.all (fun c => alph.contains (upperAscii c))
+
+def okMkCodon (alph : List Char) (s : List Char) : Out (List Char) → Bool
+  | .internal => false
+  | .refused => !validCodon alph s
+  | .ok v => validCodon alph s && v == s.map upperAscii
+
+/-! ### Strand.from_int / CDSFrame.from_int / CDSPhase.from_int / Strand.from_symbol -/
+
+/-- answered with the member whose `.value` is the argument; ValueError for every other int -/
+def okFromInt (members : List Int) (v : Int) : Out Int → Bool
+  | .internal => false
+  | .refused => !members.contains v
+  | .ok x => members.contains v && x == v
+
+def symbolOf : Strand → List Char
+  | .plus => ['+'] | .minus => ['-'] | .unstranded => ['.']
+
+def okFromSymbol (s : List Char) : Out Strand → Bool
+  | .internal => false
+  | .refused => !(s == ['+'] || s == ['-'] || s == ['.'])
+  | .ok st => symbolOf st == s
+
 /-! ### Sequence.append of two located pieces of one parent -/
 
 /-- what `a.append(b)` answered -/
@@ -298,14 +391,7 @@ inductive AppendOut where
 def appendMustRefuse (st1 : Strand) (a1 b1 : Int) (st2 : Strand) (a2 b2 : Int) (dataOnly : Bool) : Bool :=
   !dataOnly && (st1 != st2 || st1 == .unstranded || (st1 == .plus && decide (b1 > a2)) || (st1 == .minus && decide (a1 < b2)))
 
-def positionsOf (bs : List IBlk) : List Int :=
-  bs.flatMap (fun b => (List.range (b.2 - b.1).toNat).map (fun (i : Nat) => b.1 + (i : Int)))
-
-def insertSorted (x : Int) : List Int → List Int
-  | [] => [x]
-  | y :: ys => if x ≤ y then x :: y :: ys else y :: insertSorted x ys
-
-def sortInts (l : List Int) : List Int := l.foldr insertSorted []
+def coversI (bs : List IBlk) (p : Int) : Bool := bs.any (fun b => decide (b.1 ≤ p) && decide (p < b.2))
 
 def okAppend (n : Nat) (st1 : Strand) (a1 b1 : Int) (st2 : Strand) (a2 b2 : Int) (dataOnly : Bool) : AppendOut → Bool
   | .internal => false
@@ -317,7 +403,7 @@ def okAppend (n : Nat) (st1 : Strand) (a1 b1 : Int) (st2 : Strand) (a2 b2 : Int)
       (len : Int) == (b1 - a1) + (b2 - a2) &&                       -- nothing lost, nothing doubled
       (len : Int) == totalLen bs &&                                  -- len(data) = len(parent.location)
       bs.all (fun b => decide (0 ≤ b.1) && decide (b.1 ≤ b.2) && decide (b.2 ≤ (n : Int))) &&
-      sortInts (positionsOf bs) == sortInts (positionsOf [(a1, b1), (a2, b2)])
+      (List.range (n + 1)).all (fun (p : Nat) => coversI bs (p : Int) == coversI [(a1, b1), (a2, b2)] (p : Int))
 
 /-! ### multi-operand operations over a pool of parent kinds -/
 
@@ -352,18 +438,25 @@ def allPairs (p : PD → PD → Bool) : List PD → Bool
 inductive GridOut where
   | okWf | illformed | refused | internal
 
-/-- operands on incompatible parents must be refused; compatible ones must not be -/
-def pconsMustRefuse (op : String) (ks : List PD) : Bool :=
-  if op == "fsi" then !allPairs pdStrict ks
-  else match ks with
-    | [a, b] => if op == "mkpar" then a.has && b.has && !pdTolerant a b else !pdTolerant a b
-    | _ => false
+/-- which parent rule an operation is held to -/
+inductive PRule where
+  | fsi        -- from_single_intervals: every descriptor field equal, any number of operands
+  | mkpar      -- Parent(sequence.parent vs parent): compared only when both are present
+  | binary     -- union / intersection / minus / contains / has_overlap (strict) / distance_to / location_relative_to / append
+  deriving DecidableEq, Repr
 
-def okPcons (op : String) (ks : List PD) : GridOut → Bool
+/-- operands on incompatible parents must be refused; compatible ones must not be -/
+def pconsMustRefuse (r : PRule) (ks : List PD) : Bool :=
+  match r with
+  | .fsi => !allPairs pdStrict ks
+  | .mkpar => (match ks with | [a, b] => a.has && b.has && !pdTolerant a b | _ => false)
+  | .binary => (match ks with | [a, b] => !pdTolerant a b | _ => false)
+
+def okPcons (r : PRule) (ks : List PD) : GridOut → Bool
   | .internal => false
   | .illformed => false
-  | .refused => pconsMustRefuse op ks
-  | .okWf => !pconsMustRefuse op ks
+  | .refused => pconsMustRefuse r ks
+  | .okWf => !pconsMustRefuse r ks
 
 /-! ### grid lines: `ok wf` or a documented class -/
 
